@@ -35,6 +35,32 @@ CLAIMED = {
         "Not covered: arrays of >= 2^31 elements (C int pointers).",
         "Lean 4 proof (loop refinement with checked accesses) + bounds-checked twin / ASan correspondence",
         "DESIGN.md §5 C09"),
+    "C10": (
+        "Lean 4 theorem: for every input the writer accepts, load(save(e, c)) = (e, c, uint32) — derived from C11a (writer "
+        "produces the documented layout with the width chosen by the regenerated fit_dtype) and C11b (reader inverts any "
+        "documented layout). Correspondence at the semantic level (round-trip result of impl vs model); oracle = the "
+        "round trip on the real code incl. Python types, rebuilt iindex == and validate().",
+        "Trusted: Lean kernel; byte model of files (List of bytes), NumPy tofile/ndarray(buffer) little-endian I/O, mmap; "
+        "Python-level types are checked by the harness only.",
+        "Lean 4 proof (codec inversion by sequential-parser lemmas) + round-trip correspondence",
+        "DESIGN.md §5 C10"),
+    "C11": (
+        "Lean 4 theorems in both directions about a declarative Layout relation transcribed from the format docstring: "
+        "(a) the writer model emits exactly that layout with the narrowest word size and a size field equal to the payload "
+        "length for unbounded totals; (b) any layout with legal word sizes (1/2/4/8 for both) loads to its data. Tie: impl "
+        "bytes == Lean bytes == an independent Python encoder; impl loader on independently encoded bytes of every legal "
+        "width; size field at 2^30/2^32 row ids via duck-typed arrays.",
+        "Trusted: Lean kernel; translator for the width tables/magic (regenerated each run); the docstring is the spec.",
+        "Lean 4 proof (Layout relation, both directions) + byte-level correspondence against two independent codecs",
+        "DESIGN.md §5 C11"),
+    "C12": (
+        "Lean 4 theorem: for every file the writer can produce and every cut point k < len, load(prefix k) fails, with the "
+        "error class named (magic / version / short size word / mapping longer than file). Tie: the real loader is run on "
+        "EVERY strict prefix of every generated file and its error class compared with the model's.",
+        "Trusted: Lean kernel; assumption 'mmap of more bytes than the file holds raises' (validated on every prefix); a torn "
+        "file is a prefix of the intended bytes.",
+        "Lean 4 proof (case analysis on the cut point) + exhaustive-over-cut-points correspondence",
+        "DESIGN.md §5 C12"),
 }
 PENDING = {}
 
